@@ -1,0 +1,29 @@
+//go:build verif
+
+package kvstore
+
+import "sync/atomic"
+
+var verifYieldFunc atomic.Pointer[func(point string)]
+
+// SetVerifYield installs (or with nil removes) the function called at the yield points of this package.
+// Only available with the build tag `verif`.
+func SetVerifYield(f func(point string)) {
+	if f == nil {
+		verifYieldFunc.Store(nil)
+
+		return
+	}
+	verifYieldFunc.Store(&f)
+}
+
+func verifYield(point string) {
+	if f := verifYieldFunc.Load(); f != nil {
+		(*f)(point)
+	}
+}
+
+// VerifState exposes the life-cycle state of a BatchedWriter (read-only; build tag `verif`).
+func (bw *BatchedWriter) VerifState() (running bool, scheduled int, queued int, flushPending bool) {
+	return bw.running.Load(), int(bw.scheduledCount.Load()), len(bw.batchQueue), len(bw.flushChan) > 0
+}
